@@ -195,6 +195,8 @@ def gen_raire(rng):
     if lines and rng.random() < 0.3:   # the same (ballot, contest) twice: the later line wins
         l0 = rng.choice(lines)
         lines.append([l0[0], l0[1]] + rng.sample(cands[l0[0]], rng.randint(0, len(cands[l0[0]]))))
+        if rng.random() < 0.4:
+            lines.append(list(l0))   # ... and the first version once more, verbatim (a correction that was reverted)
     if rng.random() < 0.5:
         rng.shuffle(lines)
     return rows + lines
